@@ -6,9 +6,9 @@ import common
 from common import cq_bytes, cq_list
 
 THEOREMS = ["c02_fatal_origin", "c02_framework", "c02_plain", "c02_walker_safe", "c02_walker_unchecked_refuted",
-            "c02_gentime_safe", "c02_gentime_guard_needed", "c02_bodies_total", "c02_gentime_range", "c02_dn_printable", "c02_crl_lints_range", "c02_crl_entry_order", "c02_qc_assert_safe", "c02_qc_guard_needed", "c02_arpa_indexing_safe"]
+            "c02_gentime_safe", "c02_gentime_guard_needed", "c02_bodies_total", "c02_gentime_range", "c02_dn_printable", "c02_crl_lints_range", "c02_crl_entry_order", "c02_qc_assert_safe", "c02_qc_guard_needed", "c02_arpa_indexing_safe", "c02_dsa_lints_total", "c02_dsa_subgroup_spec", "c02_dsa_p_one_decided", "c02_der_read_consumes", "c02_der_walker_total", "c02_ca_ku_gated"]
 
-BODIES_HEADER = """From ZL Require Import Base.Bytes Base.Corr Kernels.Bodies Kernels.Crl Kernels.QcStatem.
+BODIES_HEADER = """From ZL Require Import Base.Bytes Base.Corr Kernels.Bodies Kernels.Crl Kernels.QcStatem Kernels.Dsa Kernels.Validity.
 From Coq Require Import ZArith.
 Open Scope Z_scope.
 Definition oz (x : out Z) : Z := match x with Val s => s | OOR => -1 end.
@@ -32,6 +32,14 @@ Definition okind_eqb (a b : option qkind) : bool := match a, b with Some x, Some
 Definition chk_qc (c : option (list item) * qkind * result) : bool :=
   match c with (outer, sought, o) => let r := parse_qc outer sought in
     okind_eqb (r_dyn r) (r_dyn o) && Bool.eqb (r_present r) (r_present o) && Bool.eqb (r_noerr r) (r_noerr o) end.
+Definition zlist_eqb (a b : list Z) : bool := (Nat.eqb (length a) (length b)) && forallb (fun p => Z.eqb (fst p) (snd p)) (combine a b).
+Definition chk_dsa (c : Z * Z * Z * Z * bool * list Z) : bool :=
+  match c with (p, q, g, y, with_exp, obs) =>
+    let k := mkDsa p q g y in
+    if with_exp then zlist_eqb (all_dsa_lints k) obs
+    else zlist_eqb (l_unique_rep k :: l_size k :: l_short k :: nil) (tl obs)
+  end.
+Definition chk_validity (c : Z * Z * list Z) : bool := match c with (nb, na, obs) => zlist_eqb (all_validity_lints nb na) obs end.
 Definition chk_bmp (c : bytes * option (option (list Z))) : bool :=
   match parse_bmp (fst c), snd c with
   | OOR, None => true
@@ -47,6 +55,8 @@ BODY_STREAMS = [
     ("sct", "chk_sct", "Bodies.sct_list vs e_empty_sct_list on decoded OCTET STRINGs"),
     ("host", "chk_host", "Bodies.get_host vs util.GetHost"),
     ("authority", "chk_authority", "Bodies.get_authority vs util.GetAuthority (net/url's verdict as input)"),
+    ("dsa", "chk_dsa", "Dsa.all_dsa_lints vs the four DSA key lints (direct Execute; subgroup exponentiation inside the assistant below a size budget)"),
+    ("validity", "chk_validity", "Validity.all_validity_lints (six validity-period lints; time.AddDate as Calendar.add_date) vs the real lint bodies on (notBefore, notAfter) pairs at and around every limit"),
     ("bmp", "chk_bmp", "Bodies.parse_bmp vs util.ParseBMPString (code units)"),
     ("crl", "chk_crl", "Crl.all_crl_lints (eight revocation-list lints, modelled in full) vs the real lints on corpus, re-dated and generated CRLs under both configurations"),
     ("ocsp", "chk_ocsp", "Crl.o_this_update_not_after_produced_at vs e_this_update_not_after_produced_at on corpus and generated responses"),
@@ -129,7 +139,11 @@ def run(ctx):
     monb = common.report_monitor_violations(ctx, db)
     ctx.oblige("dynamic: every GeneralizedTime validity field the parser accepts has at least 5 octets (the guard of c02_gentime_safe) and the time-format lints do not panic on it", not monb)
     for name, fn, model in BODY_STREAMS:
-        fb = common.corr_stream(ctx, name, db["cases"].get(name, []), BODIES_HEADER, fn, model)
+        fb = common.corr_stream(ctx, name, db["cases"].get(name, []), BODIES_HEADER, fn, model, shard={"dsa": 12}.get(name, 400))
+        if name == "dsa":
+            common.require_outcomes(ctx, "dsa", db["cases"].get("dsa", []), [{"3", "6"}] * 4)
+        if name == "validity":
+            common.require_outcomes(ctx, "validity", db["cases"].get("validity", []), [{"3", "6"}, {"3", "5"}] + [{"3", "6"}] * 4)
         if fb:
             common.report_disagreements(ctx, name, fb, "Kernels.Bodies (" + name + ")", [])
     ctx.notes["bodies_stats"] = db.get("stats", {})
